@@ -1237,6 +1237,25 @@ PRIM_ALWAYS = {'none', 'DropComponent', 'RenameRef', 'RenameRefStage', 'RenameRe
 PRIM_NOT_JUDGED = {'AddBackEdge', 'ReplicaNameClash'}
 
 
+def _every_component_shadows_the_cycle(flowir):
+    """the global variables (default platform) that lie on a cycle of %(name)s mentions, and whether every component
+    defines at least one of them itself"""
+    gl = ((flowir.get('variables') or {}).get('default') or {}).get('global') or {}
+    mentions = dict((k, set(re.findall(r'%\(([^)]+)\)s', v)) & set(gl) if isinstance(v, str) else set()) for k, v in gl.items())
+
+    def reach(a):
+        seen, todo = set(), list(mentions.get(a, ()))
+        while todo:
+            x = todo.pop()
+            if x not in seen:
+                seen.add(x)
+                todo.extend(mentions.get(x, ()))
+        return seen
+    cyc = set(a for a in gl if a in reach(a))
+    comps = [c for c in flowir.get('components', []) if isinstance(c, dict)]
+    return bool(cyc) and bool(comps) and all(set(c.get('variables') or {}) & cyc for c in comps)
+
+
 def explore_prim_load(ctx, item, flowir, pterms, pmetas):
     """the same workflow through the PRIMITIVE load: property predicate + Model.accept_prim"""
     fault, faulty, classes, w = item[:4]
@@ -1246,6 +1265,10 @@ def explore_prim_load(ctx, item, flowir, pterms, pmetas):
     case = {'fault': fault, 'workflow': flowir, 'primitive': True}
     ctx.case(('P', fault, json.dumps(flowir, sort_keys=True, default=str)), fault != 'none')
     judged = faulty and fault not in PRIM_NOT_JUDGED
+    if judged and fault == 'CyclicVars' and _every_component_shadows_the_cycle(flowir):
+        # the primitive load does not resolve the global variables on their own (the replicated load does): a cycle
+        # among the globals that EVERY component cuts by defining one of its variables itself is seen by nobody
+        judged = False
     if faulty and not judged:
         ctx.count('P:%s not judged on a primitive load (%s)' % (fault, 'accepted' if acc else 'rejected'))
     if exc == 'HANG':
